@@ -251,7 +251,8 @@ func (mv *MessageView) BodyReader(opts ...Option) (io.ReadCloser, error) {
 	br := bytes.NewReader(mv.message)
 	r = io.NewSectionReader(br, mv.bodyoffset, mv.traileroffset-mv.bodyoffset)
 
-	if !conf.decode {
+	// Nothing was captured (body skipped, or the message has none): there is nothing to decode.
+	if !conf.decode || mv.traileroffset == mv.bodyoffset {
 		return ioutil.NopCloser(r), nil
 	}
 
